@@ -158,18 +158,28 @@ def canon_i(v):
 
 
 class RefVM(_Unpickler):
-    def __init__(self, data, on_op=None):
+    def __init__(self, data, on_op=None, fix_imports=False):
         # out-of-band buffers: an unbounded supply of writable buffers, so that NEXT_BUFFER /
         # READONLY_BUFFER programs have a reference behaviour (only used by generators that opt
         # into those opcodes; without them the argument is inert)
         super().__init__(io.BytesIO(data), buffers=(bytearray(b"buf%d" % i) for i in itertools.count()))
         self.log = Log()
         self.on_op = on_op
+        # report the module a global is *effectively* resolved in: below protocol 3 the stock
+        # unpickler renames Python-2 modules and names (pickle.Unpickler(fix_imports=True))
+        self.map_py2 = fix_imports
         self.nops = 0
         self.final_shape = None
 
     # ---- inert resolution -------------------------------------------------
     def find_class(self, module, name):
+        if self.map_py2 and self.proto < 3:
+            import _compat_pickle
+
+            if (module, name) in _compat_pickle.NAME_MAPPING:
+                module, name = _compat_pickle.NAME_MAPPING[(module, name)]
+            elif module in _compat_pickle.IMPORT_MAPPING:
+                module = _compat_pickle.IMPORT_MAPPING[module]
         self.log.events.append(norm_import(module, name))
         return make_glob(module, name, self.log)
 
@@ -241,10 +251,10 @@ class RefResult:
     __slots__ = ("ok", "value", "log", "error", "final_shape", "nops", "stack_at_stop")
 
 
-def run_ref(data, on_op=None):
+def run_ref(data, on_op=None, fix_imports=False):
     """Run the reference VM. Never raises for VM rejections: returns ok=False."""
     r = RefResult()
-    vm = RefVM(data, on_op=on_op)
+    vm = RefVM(data, on_op=on_op, fix_imports=fix_imports)
     r.log = vm.log
     r.value = None
     r.error = None
